@@ -87,7 +87,8 @@ def run_unit(root, module, prop, tier, seed, rebaseline=False):
     base = load_baseline(root).get(module, {})
     changed = sorted(k for k in set(fp) | set(base) if k != "__loops__" and fp.get(k) != base.get(k))
     bl = base.get("__loops__", {})
-    rec["skeleton_changed"] = sorted(k for k, v in fp["__loops__"].items() if k in bl and bl[k] != v)
+    by_header = {it["item"] for it in meta["items"] if it.get("loops_by_header")}
+    rec["skeleton_changed"] = sorted(k for k, v in fp["__loops__"].items() if k in bl and bl[k] != v and k not in by_header)
     rec["changed_items"] = changed if base else ["<no baseline recorded>"]
     rec["baseline_present"] = bool(base)
 
@@ -172,6 +173,11 @@ def classify_unit(rec, r, meta, base, changed, text):
     if all(x["kind"] == "rlimit" for x in failed):
         rec["status"] = "undecided"
         rec["reason"] = "resource limit exceeded (after retry)"
+        return
+    if not base:
+        rec["status"] = "undecided"
+        rec["reason"] = ("obligation failed and no validated baseline is recorded for this unit (contracts/baseline.json): a unit is only "
+                         "trusted to raise alarms after it has verified the unchanged tree once (./check <ID> --rebaseline)")
         return
     if base and not changed:
         rec["status"] = "undecided"
